@@ -62,6 +62,8 @@ class DScn:
     machine_methods: list = field(default_factory=list)   # names defined on the machine class
     model_methods: list = field(default_factory=list)     # names defined on the model class
     guard_vals: dict = field(default_factory=dict)         # guard name -> bool it returns
+    coro: bool = False       # the machine has a coroutine callback (one that no diagram shows): async engine, not
+                             # activated by its constructor — the first instance diagram has no current state (D38)
     fill: str | None = None          # custom DotGraphMachine.state_active_fillcolor
     pen: object = None               # custom state_active_penwidth
     walks: list = field(default_factory=list)              # [[event, ...], ...]
@@ -166,7 +168,7 @@ def model_lines(s: DScn, subjects, fill="turquoise", pen="2"):
     one driver scenario is emitted per kind: `<name>#cls`, `<name>#inst`."""
     out = []
     for kind in ("cls", "inst"):
-        subs = [x for x in subjects if x[0] == kind]
+        subs = [x for x in subjects if x[0] == kind or (kind == "inst" and x[0] == "unset")]
         if not subs:
             continue
         inst = kind == "inst"
@@ -183,7 +185,7 @@ def model_lines(s: DScn, subjects, fill="turquoise", pen="2"):
                 f"trans src={t.src} tgt={enc(s.states[t.tgt].id)} int={int(t.internal)} "
                 f"ev={enc_list(trans_events(t))} guards={g} on={enc_list(visible_on(s, t, inst))}")
         for x in subs:
-            out.append("subject cls" if kind == "cls" else f"subject inst {enc(x[1])}")
+            out.append("subject cls" if kind == "cls" else "subject unset" if x[0] == "unset" else f"subject inst {enc(x[1])}")
         out.append("end")
     return out
 
@@ -309,11 +311,13 @@ def gen_scenario(rng: random.Random, name: str, ids=None) -> DScn:
             mm.append(nm)
             md.append(nm)
 
-    def inline(pool, kmax, p):
+    def inline(pool, kmax, p, prop_ok=False):
         out = []
         if rng.random() < p:
             for nm in rng.sample(pool, rng.randint(1, kmax)):
-                style = "callable" if rng.random() < 0.2 else "name"
+                r = rng.random()
+                # "prop": the guard is given as the `property` object of its provider's class (D37)
+                style = "callable" if r < 0.2 else ("prop" if prop_ok and r < 0.35 else "name")
                 out.append([nm, style])
         return out
 
@@ -328,8 +332,8 @@ def gen_scenario(rng: random.Random, name: str, ids=None) -> DScn:
         if rng.random() < 0.15:
             provide(nm)
     for t in s.trans:
-        t.cond = inline(GUARD_POOL, 2, 0.35)
-        t.unless = inline([g for g in GUARD_POOL if g not in [c[0] for c in t.cond]], 2, 0.25)
+        t.cond = inline(GUARD_POOL, 2, 0.35, prop_ok=True)
+        t.unless = inline([g for g in GUARD_POOL if g not in [c[0] for c in t.cond]], 2, 0.25, prop_ok=True)
         if t.cond and rng.random() < 0.15:
             expr = rng.choice(["{} and {}", "{} or not {}", "not {} and {}"]).format(
                 *rng.sample(GUARD_POOL, 2))
@@ -341,8 +345,8 @@ def gen_scenario(rng: random.Random, name: str, ids=None) -> DScn:
         ev = rng.choice(spare)
         tgt = rng.randrange(n)
         proto = DTrans(src=0, tgt=tgt, attr=ev)
-        proto.cond = inline(GUARD_POOL, 2, 0.6)
-        proto.unless = inline([g for g in GUARD_POOL if g not in [c[0] for c in proto.cond]], 2, 0.4)
+        proto.cond = inline(GUARD_POOL, 2, 0.6, prop_ok=True)
+        proto.unless = inline([g for g in GUARD_POOL if g not in [c[0] for c in proto.cond]], 2, 0.4, prop_ok=True)
         proto.on = inline(ACTION_POOL, 2, 0.3)
         for k in nonfinal:
             s.trans.append(DTrans(src=k, tgt=tgt, attr=ev, cond=[list(c) for c in proto.cond],
@@ -362,6 +366,9 @@ def gen_scenario(rng: random.Random, name: str, ids=None) -> DScn:
         gv[g] = rng.random() < 0.7
         provide(g, allow_both=False)
     s.machine_methods, s.model_methods, s.guard_vals = sorted(set(mm)), sorted(set(md)), gv
+    s.coro = rng.random() < 0.2
+    if s.coro:
+        s.rtc = True
     if rng.random() < 0.35:      # a DotGraphMachine subclass with its own active-state style
         s.fill = rng.choice(FILLS)
         s.pen = rng.choice(PENS)
